@@ -13,8 +13,9 @@ class ConcreteProvider:
 
     # doubles whose decimal text / magnitude is unusual (exponent forms, integral values, extremes): drawn in the
     # "special" witness-search runs, because how a double is PRINTED is behind the C boundary of the symbolic model
-    SPECIALS = [0.0, 1.0, -1.0, 2.0, 10.0, 100.0, 500.0, 1e5, 123456789.0, 1e15, 1e16, 1e20, 2.5e20, -1e20, 1e22, 1e30, 1e100, 1e300,
-                1e-5, 1e-7, 1e-10, 1e-20, 1e-300, 5e-324, 0.1, 1.0 / 3.0, 2.0 ** 53, 2.0 ** 53 + 2.0, 1.5, 0.5, 1e10]
+    # (magnitudes are kept within 1e-10 .. 1e22 so that products of a handful of them neither overflow nor underflow)
+    SPECIALS = [0.0, 1.0, -1.0, 2.0, 10.0, 100.0, 500.0, 1e5, 123456789.0, 1e15, 1e16, 1e20, 2.5e20, -1e20, 1e22, 3e21,
+                1e-5, 1e-7, 1e-10, 2.5e-10, 0.1, 1.0 / 3.0, 2.0 ** 53, 2.0 ** 53 + 2.0, 1.5, 0.5, 1e10, 7e10]
 
     def __init__(self, inputs=None, seed=0, record_values=False, tight=False, special=False):
         self.special = special
